@@ -475,12 +475,24 @@ pub fn oracle_c09(p: &Snap, s: &Snap, info: &StepInfo, checks: &mut u64) -> Fail
 pub struct LocoCase {
     pub cfg: LocoCfg,
     pub path: Vec<Letter>,
+    /// the public option `Locomotive.assert_limits = false` (limit checks inside the components are skipped; whatever
+    /// power then flows must still be accounted for)
+    #[serde(default)]
+    pub no_assert: bool,
+}
+
+pub fn build_case_loco(cfg: &LocoCfg, no_assert: bool) -> Locomotive {
+    let mut l = build_loco(cfg);
+    if no_assert {
+        l.assert_limits = false;
+    }
+    l
 }
 
 /// straight-line re-execution; returns per-step (info, snapshot-before, snapshot-after) for accepted steps,
 /// stops at the first rejected step
 pub fn run_case(case: &LocoCase) -> (Locomotive, Vec<(StepInfo, Snap, Snap)>) {
-    let mut loco = build_loco(&case.cfg);
+    let mut loco = build_case_loco(&case.cfg, case.no_assert);
     let mut out = vec![];
     for l in &case.path {
         let p = snap(&loco);
@@ -509,7 +521,7 @@ pub fn validate_against_walk(case: &LocoCase, final_loco: &Locomotive, steps: &[
         eng.push(info.engine_on);
     }
     let pt = PowerTrace::new(time, pwr, eng);
-    let mut sim = LocomotiveSimulation::new(build_loco(&case.cfg), pt, None);
+    let mut sim = LocomotiveSimulation::new(build_case_loco(&case.cfg, case.no_assert), pt, None);
     match guarded(|| sim.walk()) {
         Ok(Ok(())) => {
             if &sim.loco_unit == final_loco {
